@@ -313,8 +313,12 @@ pub fn write_text_replay(id: &str, kind: &str, key: &str, msg: &str, text: &str)
 }
 
 pub struct Watch {
-    /// per worker: ms since start at which the current case began (0 = idle)
+    /// per worker: watchdog time (ms, see `ticks`) at which the current case began, plus 1 (0 = idle)
     slots: Vec<AtomicU64>,
+    /// the watchdog's own clock: 250 ms per turn of its loop. It stands still while the whole machine does (a virtual
+    /// machine that is paused for a snapshot stalled every case for 144 s once and was reported as a hang), and it runs
+    /// slow when the machine is overloaded, which only makes the limit more generous.
+    ticks: AtomicU64,
     /// per worker: the case being run (for the hang report)
     current: Vec<std::sync::Mutex<Option<Streams>>>,
     /// violations found so far (a hang elsewhere must not hide them)
@@ -325,7 +329,7 @@ pub struct Watch {
     done: AtomicBool,
 }
 
-const CASE_TIMEOUT_MS: u64 = 30_000;
+const CASE_TIMEOUT_MS: u64 = 60_000;
 
 fn spawn_watchdog(w: Arc<Watch>, id: String) {
     std::thread::spawn(move || loop {
@@ -333,7 +337,7 @@ fn spawn_watchdog(w: Arc<Watch>, id: String) {
         if w.done.load(Ordering::Relaxed) {
             return;
         }
-        let now = w.start.elapsed().as_millis() as u64;
+        let now = (w.ticks.fetch_add(1, Ordering::Relaxed) + 1) * 250;
         for (i, s) in w.slots.iter().enumerate() {
             let t = s.load(Ordering::Relaxed);
             if t != 0 && now.saturating_sub(t) > CASE_TIMEOUT_MS {
@@ -421,6 +425,7 @@ pub fn run_property(p: &dyn Property, tier: Tier, seed: u64) -> RunResult {
     // 3. random search
     let watch = Arc::new(Watch {
         slots: (0..workers).map(|_| AtomicU64::new(0)).collect(),
+        ticks: AtomicU64::new(0),
         current: (0..workers).map(|_| std::sync::Mutex::new(None)).collect(),
         found: std::sync::Mutex::new(vec![]),
         tier: tier.name(),
@@ -469,7 +474,7 @@ pub fn run_property(p: &dyn Property, tier: Tier, seed: u64) -> RunResult {
                         if let Ok(mut g) = watch.current[w].lock() {
                             *g = Some(s.clone());
                         }
-                        watch.slots[w].store(watch.start.elapsed().as_millis() as u64 + 1, Ordering::Relaxed);
+                        watch.slots[w].store(watch.ticks.load(Ordering::Relaxed) * 250 + 1, Ordering::Relaxed);
                         let t0 = Instant::now();
                         let out = match std::panic::catch_unwind(std::panic::AssertUnwindSafe(|| p.run(&s))) {
                             Ok(o) => o,
